@@ -271,6 +271,11 @@ pub fn trace(o: &Opts) -> R<()> {
         }
     }
     // every opcode that does not transfer control once, deterministically (the stack effect of each)
+    for _ in 0..o.num("long", 0usize) {
+        let prog = progen::long_code(&mut rng, 24_576);
+        extra.push((prog.family, prog.code));
+        extra_limits.push(None);
+    }
     for prog in progen::stack_effects_all() {
         extra.push((prog.family, prog.code));
         extra_limits.push(None);
@@ -433,4 +438,39 @@ pub fn replay(o: &Opts) -> R<()> {
         &o.str("out")?,
         &json!({"cases": n, "mismatching": nbad, "mismatches": bad, "cases_with_forks": forks_seen, "cases_with_errors": err_cases}),
     )
+}
+
+
+/// Executed offsets against `Cfg.tla`: every generated program (and a few longer than 24 576 bytes, whose jumps aim
+/// beyond that offset) is run with the hooks on; the record carries the code bytes and the offsets of the `exec`
+/// events, and `CfgTrace.tla` checks that they are offsets the EVM can possibly reach - and, for the long programs
+/// (constant targets, no loops, generous limits), exactly those.
+pub fn cfg_trace(o: &Opts) -> R<()> {
+    let seed: u64 = o.num("seed", 1);
+    let n: usize = o.num("programs", 300);
+    let long: usize = o.num("long", 3);
+    let mut rng = StdRng::seed_from_u64(seed ^ 0xcf6);
+    let mut w = Ndjson::create(&o.str("out")?)?;
+    w.put(&json!({"ev": "begin"}));
+    let lim = Limits { l: 3, f: 8, g: 30_000_000, perm: true };
+    let mut fams = std::collections::BTreeMap::new();
+    for i in 0..(n + long) {
+        let prog = if i < long { progen::long_code(&mut rng, 24_576) } else if i % 10 == 1 { progen::long_code(&mut rng, [256usize, 300, 512][i % 3]) } else if i % 4 == 0 { progen::computed_targets(&mut rng) } else { progen::any(&mut rng) };
+        if i >= long && prog.code.len() > 600 {
+            continue;
+        }
+        let mut l = lim.clone();
+        l.perm = rng.gen_bool(0.7);
+        let out = run_vm(&prog.code, &l, i, &prog.family, 2_000_000);
+        let executed: std::collections::BTreeSet<u64> =
+            out.records.iter().filter(|r| r["ev"] == "exec").filter_map(|r| r["ip"].as_u64()).collect();
+        let fam = prog.family.split('[').next().unwrap_or("").to_string();
+        *fams.entry(fam).or_insert(0usize) += 1;
+        w.put(&json!({"ev": "cfg", "family": prog.family, "hex": hex::encode(&prog.code), "code": prog.code, "perm": l.perm,
+                      "executed": executed.into_iter().collect::<Vec<_>>(), "exact": (prog.family == "long-code" || prog.family == "far-jump") && l.perm,
+                      "panic": out.panic.is_some()}));
+    }
+    w.finish();
+    println!("{}", json!({"programs": n + long, "families": fams}));
+    Ok(())
 }
